@@ -6,13 +6,14 @@ use crate::scn_incentive::{default_users, FeeKind, IncRoot, IncScn};
 
 pub fn scenario(tier: &str) -> IncScn {
     let mut roots = vec![
-        IncRoot { label: "cw20-lp(real pair)/fresh".into(), lp_native: false, fee_kind: FeeKind::NativeDiff, prefix: 0 },
-        IncRoot { label: "native-lp/positions".into(), lp_native: true, fee_kind: FeeKind::NativeDiff, prefix: 1 },
-        IncRoot { label: "native-lp/reward-is-lp/flow".into(), lp_native: true, fee_kind: FeeKind::RewardIsLp, prefix: 2 },
+        IncRoot { label: "cw20-lp(real pair)/fresh".into(), lp_native: false, fee_kind: FeeKind::NativeDiff, prefix: 0, standing_allowance: false },
+        IncRoot { label: "native-lp/positions".into(), lp_native: true, fee_kind: FeeKind::NativeDiff, prefix: 1, standing_allowance: false },
+        IncRoot { label: "native-lp/reward-is-lp/flow".into(), lp_native: true, fee_kind: FeeKind::RewardIsLp, prefix: 2, standing_allowance: false },
     ];
+    roots.push(IncRoot { label: "cw20-lp(real pair)/standing-allowance".into(), lp_native: false, fee_kind: FeeKind::NativeDiff, prefix: 0, standing_allowance: true });
     if tier != "quick" {
-        roots.push(IncRoot { label: "cw20-lp(real pair)/reward-is-lp/flow".into(), lp_native: false, fee_kind: FeeKind::RewardIsLp, prefix: 2 });
-        roots.push(IncRoot { label: "cw20-lp(real pair)/positions".into(), lp_native: false, fee_kind: FeeKind::NativeDiff, prefix: 1 });
+        roots.push(IncRoot { label: "cw20-lp(real pair)/reward-is-lp/flow".into(), lp_native: false, fee_kind: FeeKind::RewardIsLp, prefix: 2, standing_allowance: false });
+        roots.push(IncRoot { label: "cw20-lp(real pair)/positions".into(), lp_native: false, fee_kind: FeeKind::NativeDiff, prefix: 1, standing_allowance: false });
     }
     IncScn { property: "C11".into(), roots, users: default_users(), reduced: tier == "quick" }
 }
